@@ -16,6 +16,104 @@ LEVEL = ("Mechanism level, strongest of the set: every clause is a gate an attac
          "Cryptographic soundness and completeness of the tamper catalogue are not decided.")
 
 
+def cid_reference_obligations(ctx, F):
+    """Obligations derived from the types: every CID-typed field of every aggregate kept in a CidStore is looked up in the
+    store of the referenced kind (check_reference, unconditional, error propagated, once per entry / list element), each
+    store's own entries are hashed against their CIDs, and CidInfo::verify runs and propagates all steps.  Shared by C14
+    (forged references are rejected) and C01 (code after verification may `expect` the references to resolve)."""
+    # 4. CID coverage
+    cid_info = F.adt("cid_info::CidInfo")
+    stores = {}
+    for f in cid_info["variants"][0]["fields"]:
+        m = re.search(r"CidStore<(.+)>$", f["ty"])
+        if m:
+            stores[f["name"]] = m.group(1)
+    ctx.floor("R-COVER", "CidStore fields of CidInfo", len(stores), 5)
+    by_elem = {t: n for n, t in stores.items()}
+    # collect verification functions reachable from CidInfo::verify
+    root = F.fn("cid_info::CidInfo::verify")
+    reach, _ = F.reachable_fns([root])
+    vfns = [F.fns[i] for i in reach if F.fns[i].crate == "air_interpreter_data" and "cid_info" in F.fns[i].path]
+    refs = []   # (fn, call, receiver store, referenced field chain)
+    store_verifies = set()
+    for fn in vfns:
+        p = Prov(fn)
+        for c in fn.calls:
+            if c.path.endswith("CidStore::check_reference"):
+                recv = p.operand(c.args[0])
+                tgt = p.operand(c.args[2])
+                fields = [s[2] for s in walk(tgt) if s[0] == "field"]
+                iters = [s for s in walk(tgt) if s[0] == "call" and s[1].endswith("CidStore::iter")]
+                src_store = None
+                for it in iters:
+                    fs = [s[2] for s in walk(it) if s[0] == "field"]
+                    if fs:
+                        src_store = fs[0]
+                refs.append((fn, c, recv[2] if recv[0] == "field" else show(recv), fields, src_store))
+            if c.path.endswith(("CidStore::verify", "CidStore::verify_raw_value")):
+                recv = p.operand(c.args[0])
+                if recv[0] == "field":
+                    store_verifies.add((recv[2], c.path.split("::")[-1]))
+                    ctx.require(lib.err_propagates(fn, c), "R-MUST", "cid:store-verify-propagated:" + recv[2], "%s.%s()? propagated" % (recv[2], c.path.split("::")[-1]),
+                                "the result of %s.%s() is not propagated in %s" % (recv[2], c.path.split("::")[-1], fn.path))
+    for sname, elem in sorted(stores.items()):
+        want = "verify_raw_value" if elem.endswith("RawValue") else "verify"
+        ctx.require((sname, want) in store_verifies, "R-COVER", "cid:store-verified:" + sname, "%s.%s() is called under CidInfo::verify" % (sname, want),
+                    "CidInfo::verify no longer verifies the %s (hash of each entry against its CID)" % sname)
+    # obligations from types
+    def cid_fields(adt_path, prefix=()):
+        out = []
+        a = F.adts.get(adt_path)
+        if not a:
+            return out
+        for v in a["variants"]:
+            for f in v["fields"]:
+                for m in re.finditer(r"CID<([^<>]+)>", f["ty"]):
+                    out.append((prefix + (f["name"],), m.group(1), v["name"] if a["kind"] == "Enum" else None, "Vec<" in f["ty"]))
+                for other in F.adts:
+                    if f["ty"] == other and other.startswith("air_interpreter_data") and other != adt_path:
+                        out += cid_fields(other, prefix + (f["name"],))
+        return out
+    nob = 0
+    for sname, elem in sorted(stores.items()):
+        for chain, target, variant, in_list in cid_fields(elem):
+            nob += 1
+            tstore = by_elem.get(target)
+            hit = [r for r in refs if r[2] == tstore and r[4] == sname and all(x in r[3] for x in chain)]
+            key = "cid:ref:%s.%s->%s" % (sname, ".".join(chain) + (("@" + variant) if variant else ""), tstore)
+            ok = bool(hit) and tstore is not None
+            if ok:
+                fn, c = hit[0][0], hit[0][1]
+                ok = lib.err_propagates(fn, c)
+                # no boolean guard may skip the check
+                gs = [g for g in lib.guards_of(fn, c.bb) if g[1] is not None]
+                ok = ok and not gs
+                # once per store entry: a reference held directly by the entry is checked in the loop over the store (depth 1),
+                # a reference held in a list of the entry in the loop over that list (depth 2).  Nested deeper, the check would
+                # be skipped for entries whose inner list is empty.
+                depth = lib.loop_depth(fn, c.bb)
+                want_depth = 2 if in_list else 1
+                ctx.require(depth == want_depth, "R-COVER", key + ":every-entry", "checked once per %s (loop depth %d)" % ("list element" if in_list else "store entry", want_depth),
+                            "the check_reference for %s entries' field %s sits at loop depth %d, expected %d: it no longer runs for every entry (e.g. not for an entry whose list is empty), "
+                            "and code that relies on a verified store (`expect(\"cannot happen in a checked CID store\")`) can be reached with a dangling reference"
+                            % (sname, ".".join(chain), depth, want_depth))
+            ctx.require(ok, "R-COVER", key, "every %s entry's %s is looked up in %s (error propagated, unconditional)" % (sname, ".".join(chain), tstore),
+                        "no unconditional, propagated check_reference covers %s entries' field %s (-> %s): a dangling or forged CID reference would be accepted"
+                        % (sname, ".".join(chain), tstore or target), sample={"store": sname, "field": ".".join(chain), "target_store": tstore})
+    ctx.floor("R-COVER", "CID reference obligations derived from types", nob, 8)
+    # the four verify_* steps under CidInfo::verify all propagate and dominate Ok
+    rp = Prov(root)
+    sub = [c for c in root.calls if c.local and "CidInfo::verify_" in c.path]
+    ctx.floor("R-MUST", "verify_* steps in CidInfo::verify", len(sub), 4)
+    for c in sub:
+        ctx.require(lib.err_propagates(root, c), "R-MUST", "cid:step-propagated:" + c.path.split("::")[-1], "%s()? propagated" % c.path.split("::")[-1],
+                    "CidInfo::verify ignores the result of %s" % c.path)
+        okb = lib.result_edges(root, c).get("ok")
+        ok_exits = [bi for bi, si, s in root.stmts() if s["lhs"]["l"] == 0 and s["rv"]["k"] == "agg" and s["rv"].get("variant") == "Ok"]
+        ctx.require(okb is not None and all(root.dominates(okb, b) for b in ok_exits), "R-MUST", "cid:step-dominates-ok:" + c.path.split("::")[-1],
+                    "Ok only after %s succeeded" % c.path.split("::")[-1], "CidInfo::verify can return Ok without %s" % c.path)
+
+
 def check(ctx):
     F = ctx.facts("prod")
     from rules import witness
@@ -103,88 +201,8 @@ def check(ctx):
     ctx.require(ok, "R-CFG", "features:production-default", "air-interpreter default = %s, forwarding to aquavm-air" % sorted(dflt),
                 "air-interpreter's default features no longer enable aquavm-air/check_signatures and gen_signatures: %s" % ai)
 
-    # 4. CID coverage
-    cid_info = F.adt("cid_info::CidInfo")
-    stores = {}
-    for f in cid_info["variants"][0]["fields"]:
-        m = re.search(r"CidStore<(.+)>$", f["ty"])
-        if m:
-            stores[f["name"]] = m.group(1)
-    ctx.floor("R-COVER", "CidStore fields of CidInfo", len(stores), 5)
-    by_elem = {t: n for n, t in stores.items()}
-    # collect verification functions reachable from CidInfo::verify
-    root = F.fn("cid_info::CidInfo::verify")
-    reach, _ = F.reachable_fns([root])
-    vfns = [F.fns[i] for i in reach if F.fns[i].crate == "air_interpreter_data" and "cid_info" in F.fns[i].path]
-    refs = []   # (fn, call, receiver store, referenced field chain)
-    store_verifies = set()
-    for fn in vfns:
-        p = Prov(fn)
-        for c in fn.calls:
-            if c.path.endswith("CidStore::check_reference"):
-                recv = p.operand(c.args[0])
-                tgt = p.operand(c.args[2])
-                fields = [s[2] for s in walk(tgt) if s[0] == "field"]
-                iters = [s for s in walk(tgt) if s[0] == "call" and s[1].endswith("CidStore::iter")]
-                src_store = None
-                for it in iters:
-                    fs = [s[2] for s in walk(it) if s[0] == "field"]
-                    if fs:
-                        src_store = fs[0]
-                refs.append((fn, c, recv[2] if recv[0] == "field" else show(recv), fields, src_store))
-            if c.path.endswith(("CidStore::verify", "CidStore::verify_raw_value")):
-                recv = p.operand(c.args[0])
-                if recv[0] == "field":
-                    store_verifies.add((recv[2], c.path.split("::")[-1]))
-                    ctx.require(lib.err_propagates(fn, c), "R-MUST", "cid:store-verify-propagated:" + recv[2], "%s.%s()? propagated" % (recv[2], c.path.split("::")[-1]),
-                                "the result of %s.%s() is not propagated in %s" % (recv[2], c.path.split("::")[-1], fn.path))
-    for sname, elem in sorted(stores.items()):
-        want = "verify_raw_value" if elem.endswith("RawValue") else "verify"
-        ctx.require((sname, want) in store_verifies, "R-COVER", "cid:store-verified:" + sname, "%s.%s() is called under CidInfo::verify" % (sname, want),
-                    "CidInfo::verify no longer verifies the %s (hash of each entry against its CID)" % sname)
-    # obligations from types
-    def cid_fields(adt_path, prefix=()):
-        out = []
-        a = F.adts.get(adt_path)
-        if not a:
-            return out
-        for v in a["variants"]:
-            for f in v["fields"]:
-                for m in re.finditer(r"CID<([^<>]+)>", f["ty"]):
-                    out.append((prefix + (f["name"],), m.group(1), v["name"] if a["kind"] == "Enum" else None))
-                for other in F.adts:
-                    if f["ty"] == other and other.startswith("air_interpreter_data") and other != adt_path:
-                        out += cid_fields(other, prefix + (f["name"],))
-        return out
-    nob = 0
-    for sname, elem in sorted(stores.items()):
-        for chain, target, variant in cid_fields(elem):
-            nob += 1
-            tstore = by_elem.get(target)
-            hit = [r for r in refs if r[2] == tstore and r[4] == sname and all(x in r[3] for x in chain)]
-            key = "cid:ref:%s.%s->%s" % (sname, ".".join(chain) + (("@" + variant) if variant else ""), tstore)
-            ok = bool(hit) and tstore is not None
-            if ok:
-                fn, c = hit[0][0], hit[0][1]
-                ok = lib.err_propagates(fn, c)
-                # no boolean guard may skip the check
-                gs = [g for g in lib.guards_of(fn, c.bb) if g[1] is not None]
-                ok = ok and not gs
-            ctx.require(ok, "R-COVER", key, "every %s entry's %s is looked up in %s (error propagated, unconditional)" % (sname, ".".join(chain), tstore),
-                        "no unconditional, propagated check_reference covers %s entries' field %s (-> %s): a dangling or forged CID reference would be accepted"
-                        % (sname, ".".join(chain), tstore or target), sample={"store": sname, "field": ".".join(chain), "target_store": tstore})
-    ctx.floor("R-COVER", "CID reference obligations derived from types", nob, 8)
-    # the four verify_* steps under CidInfo::verify all propagate and dominate Ok
-    rp = Prov(root)
-    sub = [c for c in root.calls if c.local and "CidInfo::verify_" in c.path]
-    ctx.floor("R-MUST", "verify_* steps in CidInfo::verify", len(sub), 4)
-    for c in sub:
-        ctx.require(lib.err_propagates(root, c), "R-MUST", "cid:step-propagated:" + c.path.split("::")[-1], "%s()? propagated" % c.path.split("::")[-1],
-                    "CidInfo::verify ignores the result of %s" % c.path)
-        okb = lib.result_edges(root, c).get("ok")
-        ok_exits = [bi for bi, si, s in root.stmts() if s["lhs"]["l"] == 0 and s["rv"]["k"] == "agg" and s["rv"].get("variant") == "Ok"]
-        ctx.require(okb is not None and all(root.dominates(okb, b) for b in ok_exits), "R-MUST", "cid:step-dominates-ok:" + c.path.split("::")[-1],
-                    "Ok only after %s succeeded" % c.path.split("::")[-1], "CidInfo::verify can return Ok without %s" % c.path)
+    # 4. CID coverage (type-derived obligations)
+    cid_reference_obligations(ctx, F)
     # check_reference: Err iff get() is None
     cr = F.fn("cid_store::CidStore::check_reference")
     cp = Prov(cr)
